@@ -38,7 +38,13 @@ vars == <<cfg, pc, cur, si, npids, success, haspid, wret, output, exitc, ch, lk,
 
 Stages == 1..MaxStages
 NONE == "none"
-(* "signal": the stage dies of a signal at an arbitrary moment (realised with SIGSEGV and with SIGKILL) *)
+(* "signal": the stage dies of a signal at an arbitrary moment.  The model does not distinguish signals: whatever
+   signal kills a stage — its own fault, the kernel, or someone outside the driver — the wait status is "signalled"
+   and that is a failure of the stage.  The binding realises the end with EVERY signal of Signals, for each pipeline
+   position and for the link command (a driver that forgives one of them, e.g. SIGTERM because it also sends it
+   itself, must be caught). *)
+Signals == <<"SIGSEGV", "SIGKILL", "SIGTERM", "SIGINT", "SIGHUP", "SIGPIPE", "SIGABRT">>
+ASSUME PrintT("VSIGNALS " \o ToJson(Signals))
 SelfEnds == {"exit1_before_read", "exit1_mid_write", "exit1_after", "signal"}   \* the stage fails on its own
 (* "exit0_nodrain": exits 0 after writing its output without reading its input to the end — outside the
    assumption of C18's liveness clause; only used by MC_DriverProc_nodrain*.cfg to exhibit the schedule in which
